@@ -40,6 +40,7 @@ FIXED = [
  ("C08", "c08:roundtrip:differs:RenderingIntent", "write the operand of ri as a name", "RenderingIntent written as 'Perceptual ri' without the solidus"),
  ("C08", "c08:table[Tr]:differs:TextRenderMode", "text rendering modes 6 and 7 are valid", "'6 Tr' and '7 Tr' rejected and dropped"),
  ("C08", "c08:table[BI]:differs:InlineImage", "seek_substr finds occurrences that start inside a partial match", "inline image whose data ends in LF ('ID \\n\\nEI') reported as unterminated"),
+ ("C19", "c19:unicode-map-differs (write_cmap)", "write_cmap separates bfrange array elements with white-space", "write_cmap wrote '[<0041>, <0042>]': the reader stopped at the first range"),
 ]
 OPEN = [
  ("C06", "gate:encrypt-direct-in-trailer", "a document whose trailer holds the /Encrypt dictionary directly (legal, ISO 32000-1 Table 15) cannot be opened with any password: Trailer.encrypt_dict is Option<RcRef<CryptDict>> and rejects a direct dictionary (UnexpectedPrimitive expected Reference); repairing it changes a public field type and needs writers for CryptDict, so it is recorded, not fixed"),
